@@ -104,6 +104,7 @@ public:
             return -1;
         r0->offset = r1.offset;
         r0->length = r1.length;
+        it->cond.notify_all();  // whoever waited for the old extent looks again
         return 0;
     }
 
